@@ -45,11 +45,46 @@ MANIFEST = dict(
         "oracle-only configuration cases (harness alone, no Lean model): weighted sums / SubrangeKernels with ADAPTIVE sub-kernels "
         "(setAdaptiveAll: sub-kernel parameters in the parameter vector and in weightedParameterDerivative), unconstrained (log) encodings "
         "of the polynomial offset and the Gaussian gamma, ARD with arbitrary gammas, each with a setParameterVector in the middle, judged "
-        "by claim/symmetry/block=single/Gram/eigenvalue/finite-difference oracles."),
+        "by claim/symmetry/block=single/Gram/eigenvalue/finite-difference oracles. "
+        "DEEPENED (branch deep2-c05): the DERIVATIVE CODE OF EVERY COMPOSED KERNEL CLASS is modelled the way the C++ is written - as code that "
+        "calls the wrapped kernel's derivative function (Model/KernelGrad.lean: monoInputDeriv, normParamGradG / normInputGrad over the state "
+        "kxy/kxx/kyy, SubrangeKernelWrapper slicing and column embedding, wsumInputCombine, wsumSubCombine for ADAPTIVE sub-kernels "
+        "(setAdaptiveAll: Kern.numParamsA / setParamsA / paramGradA with the adaptivity flag), ModelKernel's chain rule through both arguments "
+        "with LinearModel::weightedParameterDerivative, PointSetKernel's per-pair accumulation) - and Kern.paramGradA / Kern.inputGradA plug them "
+        "together along any kernel expression; ops pderiv / ideriv on composed kernels and the new op gderivx "
+        "(calculateKernelMatrixParameterDerivative over a batch partition, model gramParamDeriv) are compared EXACTLY (Rat) and bit for bit (Float) "
+        "on every run: polynomial-type leaves, power-of-two scalings and weight sums, NormalizedKernel over points whose norms are powers of two "
+        "(square roots and quotients exact; the Rat driver has an exact rational sqrt), integer affine ModelKernels, before and after "
+        "setParameterVector, with and without adaptall. Theorems (Props/C05b.lean, HasDerivAt over R): monomial_weightedInputDerivative "
+        "(exponent >= 2 incl. the safe_div branch; exponent 1 = linear), subrange_weightedParameterDerivative and "
+        "mapped_weightedParameterDerivative (kernel-parameter part of ModelKernel) via weightedSum_comap, wsum_subkernel_hasDerivAt "
+        "((w_i/W) * kernelGrad_i is the derivative in a parameter of adaptive sub-kernel i, any sub-kernel expressions), "
+        "normalized_weightedParameterDerivative_partial (the value NormalizedKernel computes from its state is the derivative of "
+        "c*k/sqrt(kxx)/sqrt(kyy): chain rule through the quotient and both square roots, base diagonal > 0, any differentiable base family), "
+        "gram_parameterDerivative_correct / gram_parameterDerivative_partition_independent (the blockwise lower-triangle sum with doubled "
+        "off-diagonal blocks = sum_r sum_c W_rc dk(x_r,x_c) for EVERY list of batches incl. empty ones, symmetric W), instantiated end to end by "
+        "gauss_gram_parameterDerivative; evalSkip_overloads_agree; multiTask_psd / multiTask_symm. "
+        "NEW KERNEL CLASSES REACHED ON EVERY RUN (second harness harness/c05b.cpp, structured inputs): GaussianTaskKernel (model taskTable = "
+        "computeMatrix in the C++ loop order, bit-for-bit; independent oracle: the table from its definition, batching of the task data, "
+        "setParameterVector / setGamma on the live object) and MultiTaskKernel (single / block / Gram = product of the two projections, model "
+        "multiTaskEval / multiTaskBlock), MklKernel over pairs of vectors (= direct sum, model subrangeKernel; single / block / sblock / "
+        "featureDistanceSqr single+batch / Gram / flags / setParameterVector / gderiv / dcheck); in harness/c05.cpp KernelExpansion as a "
+        "function (ops kexp / kx: basis batched arbitrarily, several outputs, with and without offset; model kexpEval; oracle from single "
+        "evaluations) and evalSkipMissingFeatures (both overloads, NaN masks on both inputs and the missingness vector; model evalSkip3 / "
+        "evalSkip4; oracle: kernel on the filtered vectors, symmetry, refusal of kernels without SUPPORTS_VARIABLE_INPUT_SIZE). "
+        "RE-USED OUTPUT OBJECTS (op stale, every case): both derivative calls of every kernel into pre-filled gradient objects must return what "
+        "a call into a fresh object returns (calculateKernelMatrixParameterDerivative re-uses one blockGradient). "
+        "Two genuine defects found: F-C05-6 gaussian-task-kernel-stale-matrix and F-C05-7 pointset-parameter-derivative-not-cleared (open, "
+        "patches in findings_proposed/)."),
   note=TRUST + "floating-point rounding is outside the theorems (exact-arithmetic statements; 'no negative eigenvalues beyond rounding' "
        "is checked numerically by the harness oracle only); Gaussian/ARD PSD-ness is proved for data of equal dimension (the C++ SIZE_CHECK) and is a hypothesis only in the variant for points of unequal length; derivative theorems cover "
-       "Gaussian/polynomial/linear/ARD/scaled and the weighted-sum log-weights - derivatives of normalised, sub-range, monomial, model, point-set kernels and the "
-       "weighted-sum input derivative are exercised by the finite-difference oracle only (toleranced 2e-5); the Gaussian derivative correspondence is "
+       "Gaussian/polynomial/linear/ARD/scaled, the weighted-sum log-weights and (Props/C05b) monomial input, sub-range parameter, ModelKernel kernel-parameter part, adaptive sub-kernels of sums, and the Gram helper (unequal point dimensions are not accepted by the code: a Data<RealVector> batch is a matrix). "
+       "PROVED ONLY IN PART: normalized_weightedParameterDerivative_partial is stated for 1x1 blocks (the calculus: quotient + two square roots); that the code's row/column sums over a larger block equal the sum of the per-pair derivatives is tied by the exact pderiv correspondence, not proved. "
+       "CORRESPONDENCE + FINITE DIFFERENCES ONLY (modelled and compared exactly, no HasDerivAt theorem): NormalizedKernel::weightedInputDerivative, SubrangeKernelWrapper::weightedInputDerivative (column embedding), WeightedSumKernel::weightedInputDerivative, the LinearModel part of ModelKernel's parameter derivative (needs joint differentiability of the base kernel in both arguments), PointSetKernel::weightedParameterDerivative. "
+       "The exact correspondence of the composed derivative code needs exactly representable values: Gaussian/ARD leaves inside composed kernels, non-power-of-two weights and NormalizedKernel on general points are judged by the finite-difference oracle (2e-5) and the stale-output oracle only. "
+       "GaussianTaskKernel: PSD-ness of the task table (a Gaussian of RKHS distances of mean elements) is not proved (multiTask_psd takes it as hypothesis; the harness checks eigenvalues of MultiTaskKernel Gram matrices); MklKernel is exercised with two vector components (the fusion machinery is generic in the tuple); MissingFeaturesKernelExpansion is not reached (C07/C18 own the SVM models); CSvmDerivative is C07's. "
+       "State re-use: the derivative functions accept a State computed for other batches silently (parameter derivative = the old batches' derivative; probed, see findings_proposed/C05.md) - the documented contract, honoured by all library callers; not a theorem, not checked per run. "
+       "the Gaussian derivative correspondence is "
        "bit-exact on 1x1 blocks only (ARD: all blocks), PointSetKernel with inexact base values only on singleton sets (summation order not modelled); "
        "PSD of PointSetKernel is proved as a quadratic-form statement (pointSet_quadForm_nonneg), not as Matrix.PosSemidef; MultiTaskKernel, MklKernel and the unconstrained parameter encodings of Gaussian/polynomial are not modelled; ARD, normalised and sub-range kernels "
        "cannot be instantiated for sparse inputs in Shark, so the sparse runs cover the other kernels. "
@@ -58,10 +93,12 @@ MANIFEST = dict(
        "log-gammas 0 only, arbitrary ones run oracle-only; adaptive sub-kernels and unconstrained encodings are not in the Lean model "
        "(oracle-only, toleranced); PSD after a history follows from kernel_psd_equalDim applied to the reconfigured expression, an "
        "explicit admissibility-preservation theorem for setFactor/setParams is not stated; read() from an archive into a differently "
-       "configured object is not exercised here (C18). OPEN finding F-C05-5 product-stale-parameter-count (ProductKernel caches its "
-       "parameter count; heap overflow in parameterVector() after a factor's setAdaptiveAll; corpus/C05/product_stale_parameter_count.txt, "
-       "patch findings_proposed/C05-product-stale-parameter-count.patch): while the corpus probe fails the generator keeps sums below a "
-       "product non-adaptive. Four genuine defects found earlier by this check "
+       "configured object is not exercised here (C18). OPEN findings F-C05-6 gaussian-task-kernel-stale-matrix (computeMatrix accumulates into the old table; setGamma/setWidth do not recompute; "
+       "corpus/C05/gaussian_task_kernel_stale_matrix.txt) and F-C05-7 pointset-parameter-derivative-not-cleared (gradient resized, not cleared; "
+       "calculateKernelMatrixParameterDerivative wrong for > 1 batch; corpus/C05/pointset_parameter_derivative_not_cleared.txt): while the corpus "
+       "probes fail the generated stream does not reconfigure live task kernels and does not call the PointSetKernel parameter derivative into "
+       "re-used gradients (on a patched tree both are generated: validated with VERIF_REPO). F-C05-5 product-stale-parameter-count is repaired "
+       "(f6f5bb01; the probe passes, sums below products are made adaptive). Four genuine defects found earlier by this check "
        "(normalized-stateless-block, discrete-block-ignores-indices, monomial-degree1-input-derivative, product-uninitialised-parameter-count) "
        "are repaired in /repo by fix: commits ceaec0f1, f2e5cee8, e15da9fc, dba592e9; their inputs stay in corpus/C05 and the model is the repaired code.",
   technique="Lean 4 proofs by structural induction over a kernel expression language + Mathlib PosSemidef/HasDerivAt + differential correspondence with the C++ (exact / bit mode, ASan/UBSan)",
@@ -69,12 +106,12 @@ MANIFEST = dict(
 
 FINISH = dict(level="proof",
               rule="a case = kernel expression (random composition, depth <= 3, dyadic parameters) + integer points + ops "
-                   "(single / block / sblock / fdist / fdistb / flags / gram over batch partitions / mixed / pderiv / ideriv / dcheck / gderiv / unitvar) "
+                   "(single / block / sblock / fdist / fdistb / flags / gram over batch partitions / mixed / pderiv / ideriv / dcheck / stale / gderiv / gderivx / unitvar / kexp+kx / skip; task / tbatch / tsetparams / tsetgamma / mt; mkl + mk <op>) "
                    "+ in-place reconfigurations (setfactor / setparams / adaptall) with observations after each; non-trivial = composed kernel "
                    "(depth >= 1) or a Gram op with >= 2 batches; distinct = distinct op text")
 
-LAKE_TARGETS = ["SharkVerif.Props.C05", "drv_c05"]
-PROPS = ["SharkVerif.Props.C05"]
+LAKE_TARGETS = ["SharkVerif.Props.C05", "SharkVerif.Props.C05b", "drv_c05"]
+PROPS = ["SharkVerif.Props.C05", "SharkVerif.Props.C05b"]
 
 
 # ----------------------------------------------------------------------------- values
@@ -376,6 +413,11 @@ def probe_fails(exe, env, cases):
     return False
 
 
+def is_b_case(ops):
+    """cases of the second harness (structured inputs)"""
+    return any(o.split()[0] in ("task", "mkl") for o in ops[:3] if o)
+
+
 def gen_config_case(r, maxn, avoid_prod_adaptive=False):
     """configurations the model does not cover, run on the real code alone and judged by the in-harness oracle:
     weighted sums / SubrangeKernels whose sub-kernels are adaptive (setAdaptiveAll: the sub-kernels' parameters are part of
@@ -400,16 +442,19 @@ def gen_config_case(r, maxn, avoid_prod_adaptive=False):
             a = r.below(n); b = r.range(a + 1, min(n, a + 3)); c = r.below(n); d = r.range(c + 1, min(n, c + 3))
             ops.append(f"dcheck {a} {b} {c} {d} " + " ".join(str(r.range(-2, 2)) for _ in range((b - a) * (d - c))))
         ops.append("gderiv " + " ".join(map(str, rand_partition(r, n))))
+        a = r.below(n); b = r.range(a + 1, min(n, a + 3)); c = r.below(n); d = r.range(c + 1, min(n, c + 3))
+        ops.append(f"stale {a} {b} {c} {d} " + " ".join(str(r.range(-2, 2)) for _ in range((b - a) * (d - c))))
     derivs()
     ops.append(("setparams " + " ".join(dy(v) for v in new_params(r, slots, free_ard=True))).strip())
     ops += observe_ops(r, n, reg)
     derivs()
+    ops += kexp_ops(r, n)
     info = dict(info, n=n, dim=dim, parts=0, exact_case=False, oracle_only=True,
                 kinds=info["kinds"] | {"config"} | ({"adaptive"} if adaptive else set()))
     return ops, info
 
 
-def gen_case(ctx, r, maxn, all_partitions=False):
+def gen_case(ctx, r, maxn, all_partitions=False, ps_reuse_ok=False):
     dim = r.choice([1, 2, 2, 3, 3, 4])
     n = r.range(2, maxn)
     toks, info = KGen(r).gen(dim, r.choice([0, 1, 2, 2, 3, 3]))
@@ -452,6 +497,12 @@ def gen_case(ctx, r, maxn, all_partitions=False):
         psops.append(f"ps gram 0 " + " ".join(map(str, rand_partition(r, m))))
         info = dict(info, f=info["f"] + 4, kinds=info["kinds"] | {"pointset"})
         ops += psops
+    # KernelExpansion as a function (exact kernels: compared with the model; the others are judged by the oracle in the
+    # oracle-only configuration cases) and evalSkipMissingFeatures
+    if info["exact"] and "norm" not in info["kinds"]:
+        ops += kexp_ops(r, n); info = dict(info, f=info["f"] + 2, M=info["M"] * 8 * n, kinds=info["kinds"] | {"kexp"})
+    if toks[0] in ("lin", "poly", "mono") or r.chance(1, 8):
+        ops += skip_ops(r, n, dim); info = dict(info, kinds=info["kinds"] | {"skipmissing"})
     # the object is reconfigured in place and everything is observed again on the SAME object
     a = r.below(n); b = r.range(a + 1, n); c = r.below(n); d = r.range(c + 1, n)
     ops += ["flags", f"fdistb {a} {b} {c} {d}"]
@@ -463,10 +514,14 @@ def gen_case(ctx, r, maxn, all_partitions=False):
     # numerical derivative oracle on the real code (finite differences); last, because it resets parameters
     a = r.below(n); b = r.range(a + 1, min(n, a + 3)); c = r.below(n); d = r.range(c + 1, min(n, c + 3))
     ops.append(f"dcheck {a} {b} {c} {d} " + " ".join(str(r.range(-2, 2)) for _ in range((b - a) * (d - c))))
+    ops.append(f"stale {a} {b} {c} {d} " + " ".join(str(r.range(-2, 2)) for _ in range((b - a) * (d - c))))
     if psops:
         m = len(psops[0].split()) - 1
         a = r.below(m); b = r.range(a + 1, m); c = r.below(m); d = r.range(c + 1, m)
         ops.append(f"ps dcheck {a} {b} {c} {d} " + " ".join(str(r.range(-2, 2)) for _ in range((b - a) * (d - c))))
+        if ps_reuse_ok:
+            ops.append(f"ps stale {a} {b} {c} {d} " + " ".join(str(r.range(-2, 2)) for _ in range((b - a) * (d - c))))
+            ops.append("ps gderiv " + " ".join(map(str, rand_partition(r, m))))
     info = dict(info, n=n, dim=dim, parts=len(parts), exact_case=exact_ok(info))
     return ops, info
 
@@ -521,6 +576,216 @@ def gen_deriv_case(r, maxn):
     return ops, dict(exact=exact, exact_case=exact, kinds=set(kinds_of(ops)) | {"deriv"}, depth=0, n=n, dim=dim, parts=0, M=Fraction(1), f=0)
 
 
+# ----------------------------------------------------------------------------- derivative code of composed kernels
+POW2PTS = [1, 2, 4, -1, -2, -4]
+
+
+def gen_pow2_points(r, n, dim):
+    """points with exactly one non-zero coordinate, a signed power of two: <x,x> is a power of four, so the square
+    roots and quotients of a NormalizedKernel over a linear / monomial base are exact (dyadic) in Rat and in Float"""
+    pts = []
+    for _ in range(n):
+        p = [0] * dim; p[r.below(dim)] = r.choice(POW2PTS); pts.append(p)
+    if n >= 2 and r.chance(1, 3): pts[n - 1] = list(pts[0])
+    return pts
+
+
+class DGen:
+    """kernel expressions whose derivative code runs in exact dyadic arithmetic: polynomial-type leaves, scaled by powers
+    of two, sub-ranges, weighted sums with a power-of-two weight sum, SubrangeKernel with log-weights 0, ModelKernel over an
+    integer affine map, NormalizedKernel over bases with <x,x>-power-of-four diagonals (with gen_pow2_points)"""
+    def __init__(self, r):
+        self.r = r; self.kinds = set(); self.has_norm = False; self.has_model = False; self.slots = []; self.slots_ad = []
+
+    def leaf(self, dim):
+        r = self.r; x = r.below(3)
+        if x == 0: self.kinds.add("lin"); return ["lin"], [], []
+        if x == 1:
+            self.kinds.add("poly")
+            return ["poly", str(r.choice([1, 2, 2, 3])), dy(r.choice([Fraction(0), Fraction(0), Fraction(1), Fraction(1, 2), Fraction(2)]))], ["off"], ["off"]
+        self.kinds.add("mono"); return ["mono", str(r.choice([0, 1, 2, 2, 3]))], [], []
+
+    def norm_base(self, dim):
+        r = self.r; x = r.below(4)
+        if x == 0: self.kinds.add("lin"); return ["lin"]
+        if x == 1: self.kinds.add("mono"); return ["mono", str(r.choice([1, 2, 3]))]
+        if x == 2: self.kinds |= {"scaled", "lin"}; return ["scaled", dy(r.choice([Fraction(4), Fraction(1, 4)])), "lin"]
+        self.kinds |= {"scaled", "mono"}; return ["scaled", dy(r.choice([Fraction(4), Fraction(1, 4)])), "mono", "2"]
+
+    def gen(self, dim, depth, allow_norm, allow_model=True):
+        """returns (tokens, ps, psa): parameter slots without / with adaptive sub-kernels"""
+        r = self.r
+        if depth == 0 or r.chance(1, 5): return self.leaf(dim)
+        x = r.below(100)
+        if x < 20 and allow_norm:
+            self.kinds.add("norm"); self.has_norm = True
+            return ["norm"] + self.norm_base(dim), [], []
+        if x < 38:
+            t, ps, psa = self.gen(dim, depth - 1, allow_norm, allow_model); self.kinds.add("scaled")
+            return ["scaled", dy(r.choice([Fraction(1, 2), Fraction(2), Fraction(4), Fraction(1, 4)]))] + t, ps, psa
+        if x < 62:
+            ws = r.choice([[1, 1], [1, 3], [1, 1, 2], [1, 2, 1], [1, 1, 1, 1], [1, Fraction(1, 2), Fraction(1, 2)], [1]])
+            subs = [self.gen(dim, depth - 1, allow_norm, allow_model) for _ in ws]
+            toks = ["wsum", str(len(ws)), dy(sum(Fraction(w) for w in ws))]
+            for w, (t, _, _) in zip(ws, subs): toks += [dy(Fraction(w))] + t
+            self.kinds.add("wsum")
+            return toks, ["logw"] * (len(ws) - 1), ["logw"] * (len(ws) - 1) + [q for _, _, a in subs for q in a]
+        if x < 74 and dim >= 2:
+            n = r.choice([1, 2, 2, 4]); toks = ["subk", str(n)] + ["0"] * (n - 1); psa = []
+            for _ in range(n):
+                a = r.below(dim - 1); b = r.range(a + 1, dim)
+                t, _, pa = self.gen(b - a, depth - 1, False, allow_model); toks += [str(a), str(b)] + t; psa += pa
+            self.kinds |= {"subk", "sub"}
+            return toks, ["logw"] * (n - 1), ["logw"] * (n - 1) + psa
+        if x < 86 and dim >= 2:
+            a = r.below(dim - 1); b = r.range(a + 1, dim)
+            t, ps, psa = self.gen(b - a, depth - 1, False, allow_model); self.kinds.add("sub")
+            return ["sub", str(a), str(b)] + t, ps, psa
+        if allow_model:
+            rdim = r.choice([1, 2, 2]); self.kinds.add("model"); self.has_model = True
+            A = [[r.range(-1, 1) for _ in range(dim)] for _ in range(rdim)]
+            bvec = [r.range(-1, 1) for _ in range(rdim)]
+            t, ps, psa = self.gen(rdim, depth - 1, False, False)
+            extra = ["int"] * (rdim * dim + rdim)
+            return ["model", str(rdim), str(dim)] + [str(v) for row in A for v in row] + [str(v) for v in bvec] + t, ps + extra, psa + extra
+        return self.leaf(dim)
+
+
+def gen_deriv2_case(r, maxn, pointset_ok=False):
+    """exact correspondence of weightedParameterDerivative / weightedInputDerivative / calculateKernelMatrixParameterDerivative
+    for COMPOSED kernels (model: Kern.paramGradA / inputGradA / gramParamDeriv), incl. adaptive sub-kernels"""
+    dim = r.choice([1, 2, 2, 3]); n = r.range(1, maxn)
+    g = DGen(r)
+    want_norm = r.chance(1, 3)
+    toks, ps, psa = g.gen(dim, r.choice([1, 1, 2, 2, 3]), want_norm)
+    pts = gen_pow2_points(r, n, dim) if g.has_norm else gen_points(r, n, dim, False)
+    if g.has_model and g.has_norm:
+        pts = gen_pow2_points(r, n, dim)
+    ops = ["kern " + " ".join(toks), f"pts {n} {dim} " + " ".join(str(v) for p in pts for v in p), "flags"]
+    adaptive = ("wsum" in toks or "subk" in toks) and r.chance(1, 2)
+    if adaptive: ops += ["adaptall", "flags"]
+
+    def coeffs(k):
+        return " ".join(dy(r.choice([Fraction(v) for v in (-2, -1, 0, 1, 2, 3)] + [Fraction(1, 2)])) for _ in range(k))
+
+    def deriv_ops():
+        for _ in range(r.range(2, 3)):
+            a = r.below(n); b = r.range(a + 1, n); c = r.below(n); d = r.range(c + 1, n)
+            co = coeffs((b - a) * (d - c))
+            ops.append(f"pderiv {a} {b} {c} {d} {co}"); ops.append(f"ideriv {a} {b} {c} {d} {co}")
+        ops.append("gderivx " + " ".join(map(str, rand_partition(r, n))))
+        ops.append(f"gderivx {n}")
+    deriv_ops()
+    slots = psa if adaptive else ps
+    # setParameterVector in the middle: log-encoded slots stay 0 (exp(0) = 1 exactly), offsets and model entries change
+    if slots and r.chance(1, 2) and not g.has_norm:
+        vals = [Fraction(0) if q == "logw" else (r.choice(OFFSETS) if q == "off" else Fraction(r.range(-1, 1))) for q in slots]
+        if all(q == "logw" for q in slots) or True:
+            # a weighted sum re-normalises by 1 + (n-1): exact only if that is a power of two -> checked by the Rat run itself
+            nsum_ok = all(is_pow2(Fraction(int(t))) for t, prev in zip(toks[1:], toks[:-1]) if prev in ("wsum", "subk"))
+            if nsum_ok:
+                ops.append("setparams " + " ".join(dy(v) for v in vals)); deriv_ops()
+    # PointSetKernel over the same kernel: parameter derivative on a block of sets and through the Gram helper
+    if pointset_ok and not g.has_norm and r.chance(1, 2):
+        sizes, left = [], n
+        while left > 0 and len(sizes) < 4:
+            sz = r.choice([q for q in (1, 2, 4) if q <= left]); sizes.append(sz); left -= sz
+        m = len(sizes)
+        ops.append("psets " + " ".join(map(str, sizes)))
+        a = r.below(m); b = r.range(a + 1, m); c = r.below(m); d = r.range(c + 1, m)
+        ops.append(f"ps pderiv {a} {b} {c} {d} {coeffs((b - a) * (d - c))}")
+        ops.append("ps gderivx " + " ".join(map(str, rand_partition(r, m))))
+        ops.append("ps gderiv " + " ".join(map(str, rand_partition(r, m))))
+        g.kinds.add("pointset")
+    # finite differences last: the oracle restores the parameters through the log/exp encodings (rounding)
+    a = r.below(n); b = r.range(a + 1, min(n, a + 3)); c = r.below(n); d = r.range(c + 1, min(n, c + 3))
+    if not g.has_norm:
+        ops.append(f"dcheck {a} {b} {c} {d} " + " ".join(str(r.range(-2, 2)) for _ in range((b - a) * (d - c))))
+    kinds = set(g.kinds) | {"deriv2"} | ({"adaptive"} if adaptive else set())
+    return ops, dict(exact=True, exact_case=True, kinds=kinds, depth=1, n=n, dim=dim, parts=0, M=Fraction(1), f=0)
+
+
+def kexp_ops(r, n, exactvals=True):
+    """a KernelExpansion over the first m points (basis batched), evaluated on blocks of the points"""
+    m = r.range(1, n); nout = r.choice([1, 1, 2, 3]); off = r.below(2)
+    sizes = rand_partition(r, m)
+    vals = [Fraction(r.range(-2, 2)) if r.chance(3, 4) else Fraction(r.choice([1, -1, 3]), 2) for _ in range(m * nout + off * nout)]
+    ops = [f"kexp {nout} {off} {len(sizes)} " + " ".join(map(str, sizes)) + " " + " ".join(dy(v) for v in vals)]
+    for _ in range(2):
+        a = r.below(n); b = r.range(a + 1, n); ops.append(f"kx {a} {b}")
+    return ops
+
+
+def skip_ops(r, n, dim):
+    ops = []
+    for _ in range(2):
+        full = (1 << dim) - 1
+        while True:
+            ma, mb, mm = (r.below(full + 1) if r.chance(1, 2) else 0 for _ in range(3))
+            if (ma | mb | mm) != full: break       # at least one feature is present everywhere
+        ops.append(f"skip {r.below(n)} {r.below(n)} {ma} {mb} {mm}")
+    return ops
+
+
+def gen_task_case(r, maxn, reconf_ok):
+    """GaussianTaskKernel / MultiTaskKernel over a vector kernel (harness c05b): task table, batching of the task data,
+    single / block / Gram of the product kernel; setParameterVector / setGamma on the live object when the
+    gaussian-task-kernel-stale-matrix probe passes"""
+    dim = r.choice([1, 2, 2, 3]); n = r.range(1, maxn)
+    kg = KGen(r); kg.no_norm = 1
+    while True:
+        toks, info = kg.gen(dim, r.choice([0, 0, 1, 1, 2]))
+        if not ({"model", "subk", "wsump"} & info["kinds"]): break
+    pts = gen_points(r, n, dim, False)
+    T = r.range(1, 4); tasks = [r.below(T) for _ in range(n)]
+    if T >= 2 and r.chance(1, 3): tasks = [t % (T - 1) for t in tasks]       # a task without examples
+    gam = r.choice(GAMMAS)
+    ops = ["kern " + " ".join(toks), f"pts {n} {dim} " + " ".join(str(v) for p in pts for v in p),
+           f"task {T} {dy(gam)} " + " ".join(map(str, tasks)), "tbatch " + " ".join(map(str, rand_partition(r, n)))]
+    def observe():
+        ops.append(f"mt 0 {r.below(n)} {r.below(n)}"); i = r.below(n); ops.append(f"mt 0 {i} {i}")
+        a = r.below(n); b = r.range(a + 1, n); c = r.below(n); d = r.range(c + 1, n)
+        ops.append(f"mt 1 {a} {b} {c} {d}")
+        ops.append(f"mt 2 {dy(r.choice([Fraction(0), Fraction(1, 2)]))} " + " ".join(map(str, rand_partition(r, n))))
+    observe()
+    if reconf_ok:
+        for _ in range(r.range(1, 2)):
+            if r.chance(1, 2): ops.append(f"tsetgamma {dy(r.choice(GAMMAS))}")
+            else: ops.append(("tsetparams " + " ".join(dy(v) for v in new_params(r, info["ps"]) + [r.choice(GAMMAS)])).strip())
+            observe()
+    return ops, dict(exact=False, exact_case=False, kinds=info["kinds"] | {"task", "multitask"}, depth=info["depth"] + 1, n=n, dim=dim, parts=0, M=Fraction(1), f=0)
+
+
+def gen_mkl_case(r, maxn):
+    """MklKernel over pairs of vectors (harness c05b) = direct sum of two kernels (model: subrangeKernel)"""
+    dim = r.choice([2, 2, 3, 4]); n = r.range(1, maxn); da = r.range(1, dim - 1)
+    kg = KGen(r); kg.no_norm = 1
+    def part(d):
+        while True:
+            t, i = kg.gen(d, r.choice([0, 0, 1, 2]))
+            if not ({"model", "subk", "sub", "wsump", "wsum", "prod"} & i["kinds"]): return t, i
+    t1, i1 = part(da); t2, i2 = part(dim - da)
+    pw = r.choice([Fraction(0), Fraction(0), Fraction(1), Fraction(-1), Fraction(1, 2)])
+    pts = gen_points(r, n, dim, False)
+    ops = [f"mkl {da} {dy(pw)} " + " ".join(t1 + t2), f"pts {n} {dim} " + " ".join(str(v) for p in pts for v in p), "mk flags"]
+    def observe():
+        ops.append(f"mk single {r.below(n)} {r.below(n)}"); ops.append(f"mk fdist {r.below(n)} {r.below(n)}")
+        a = r.below(n); b = r.range(a + 1, n); c = r.below(n); d = r.range(c + 1, n)
+        ops.extend([f"mk block {a} {b} {c} {d}", f"mk sblock {a} {b} {c} {d}", f"mk fdistb {a} {b} {c} {d}"])
+        ops.append(f"mk gram {dy(r.choice([Fraction(0), Fraction(1)]))} " + " ".join(map(str, rand_partition(r, n))))
+        ops.append("mk gderiv " + " ".join(map(str, rand_partition(r, n))))
+    observe()
+    if r.chance(1, 2):
+        ops.append(f"mk setparams {dy(r.choice(LOGS))}"); observe()
+    a = r.below(n); b = r.range(a + 1, min(n, a + 3)); c = r.below(n); d = r.range(c + 1, min(n, c + 3))
+    ops.append(f"mk dcheck {a} {b} {c} {d} " + " ".join(str(r.range(-2, 2)) for _ in range((b - a) * (d - c))))
+    ex = pw == 0 and i1["exact"] and i2["exact"] and "setparams" not in " ".join(ops)
+    info = dict(exact=ex, M=max(i1["M"], i2["M"]), f=max(i1["f"], i2["f"]) + 1, kinds=i1["kinds"] | i2["kinds"] | {"mkl"}, depth=1 + max(i1["depth"], i2["depth"]),
+                n=n, dim=dim, parts=0)
+    info["exact_case"] = exact_ok(info)
+    return ops, info
+
+
 def gen_discrete_case(r, all_partitions=False):
     """DiscreteKernel: symmetric PSD integer table A = B B^T, index data with repetitions"""
     m = r.range(1, 5)
@@ -546,7 +811,8 @@ def gen_discrete_case(r, all_partitions=False):
 # ----------------------------------------------------------------------------- classification
 def kinds_of(ops):
     toks = ops[0].split() if ops else []
-    names = {"lin", "poly", "mono", "gauss", "ard", "norm", "scaled", "wsum", "wsump", "prod", "sub", "disc", "model", "subk", "polyu", "gaussu"}
+    if toks and toks[0] == "mkl": toks = ["kern", "mkl"] + toks[3:]
+    names = {"mkl", "lin", "poly", "mono", "gauss", "ard", "norm", "scaled", "wsum", "wsump", "prod", "sub", "disc", "model", "subk", "polyu", "gaussu"}
     return sorted({t for t in toks[1:] if t in names})
 
 
@@ -565,7 +831,7 @@ def classify(ops, res):
     fop = None
     for o, l in zip(ops, res.impl):
         if "!oracle" in l:
-            w = o.split(); fop = w[1] if w[0] == "ps" and len(w) > 1 else w[0]
+            w = o.split(); fop = w[1] if w[0] in ("ps", "mk") and len(w) > 1 else w[0]
             break
     reconfigured = any(o in ("setfactor", "setparams") for o in opk)
     if fop is not None:
@@ -590,6 +856,12 @@ def classify(ops, res):
         # the harness dies inside the adaptall op itself (its parameterVector() call) on a kernel containing a product
         return "product-stale-parameter-count", (f"ProductKernel::m_numberOfParameters is stale after a factor's parameter count changed "
                                                  f"(setAdaptiveAll): parameterVector() overflows ({crash}) on ops {ops}")
+    if tag == "task-table-stale" and fop in ("tsetparams", "tsetgamma"):
+        return "gaussian-task-kernel-stale-matrix", (f"GaussianTaskKernel: the task table after {fop} on the live object is not the table of the "
+                                                     f"current parameters ({res.oracle[0][-100:]}) on ops {ops}")
+    if any(o.startswith("psets") for o in ops) and fop in ("pderiv", "gderiv", "gderivx", "stale") and tag in ("stale-output-param", "gram-param-derivative"):
+        return "pointset-parameter-derivative-not-cleared", (f"PointSetKernel::weightedParameterDerivative adds to the gradient it is handed instead of "
+                                                             f"overwriting it ({res.oracle[0][-100:]}) on ops {ops}")
     if "prod" in kinds and "prod 0" in ops[0] and (crash or tag):
         return "empty-product-block", f"ProductKernel with no factors: block evaluation fails ({tag or crash}) on ops {ops}"
     if crash:
@@ -625,6 +897,11 @@ def build(ctx):
     return ctx.harness(harness_name(), ["c05.cpp"])
 
 
+def build_b(ctx):
+    """second harness: kernels over structured inputs (GaussianTaskKernel / MultiTaskKernel, MklKernel)"""
+    return ctx.harness(harness_name().replace("c05", "c05b", 1), ["c05b.cpp"])
+
+
 def run(ctx):
     ctx.trusted += ["correspondence harness harness/c05.cpp + generator checks/c05.py",
                     "hand-written model Model/Kernels.lean (the kernel headers are modelled, not translated)",
@@ -638,8 +915,9 @@ def run(ctx):
     if not ctx.quick:
         ctx.leanchecker(PROPS)
     exe = build(ctx)
+    exe_b = build_b(ctx)
     drv = ctx.driver("drv_c05")
-    if not exe or not drv:
+    if not exe or not exe_b or not drv:
         return
     r = ctx.rng.fork("c05")
     # SHARK_PARALLEL_FOR in the Gram assembly stays parallel (2 threads), but without 16 spinning threads
@@ -653,8 +931,13 @@ def run(ctx):
         cases.append((ops, dict(exact_case=(mode == "exact"), kinds=set(kinds_of(ops)), depth=-1, n=0, dim=0, parts=0, corpus=True,
                                 oracle_only=(mode == "oracle-only"))))
     ctx.cov["corpus_cases"] = len(cases)
+    corp = load_corpus()
+    ps_stale = probe_fails(exe, env, [o for o, m in corp if any(x.startswith("ps gderiv") or x.startswith("ps pderiv") for x in o)])
+    tk_stale = probe_fails(exe_b, env, [o for o, m in corp if any(x.startswith("tset") for x in o)])
+    ctx.cov["probe_pointset_parameter_derivative"] = "defect present" if ps_stale else "passes"
+    ctx.cov["probe_gaussian_task_kernel_reconfiguration"] = "defect present" if tk_stale else "passes"
     for _ in range(ncases):
-        cases.append(gen_case(ctx, r, maxn))
+        cases.append(gen_case(ctx, r, maxn, ps_reuse_ok=not ps_stale))
     for _ in range(ndisc):
         cases.append(gen_discrete_case(r))
     for _ in range(nderiv):
@@ -668,6 +951,16 @@ def run(ctx):
     ctx.cov["probe_product_stale_parameter_count"] = "defect present" if stale else "passes"
     for _ in range(nconf):
         cases.append(gen_config_case(r, maxn, avoid_prod_adaptive=stale))
+    # open findings pointset-parameter-derivative-not-cleared / gaussian-task-kernel-stale-matrix: the corpus cases keep
+    # reporting them; the generated stream uses the affected calls (PointSetKernel parameter derivative into a re-used
+    # gradient; setParameterVector / setGamma on a live GaussianTaskKernel) only on a tree where the probes pass
+    nd2, ntask, nmkl = (250, 120, 120) if ctx.quick else (1200, 500, 500)
+    for _ in range(nd2):
+        cases.append(gen_deriv2_case(r, maxn, pointset_ok=not ps_stale))
+    for _ in range(ntask):
+        cases.append(gen_task_case(r, maxn, reconf_ok=not tk_stale))
+    for _ in range(nmkl):
+        cases.append(gen_mkl_case(r, maxn))
     if not ctx.quick:
         # partition independence: ALL ordered batch partitions of n points (n <= 12)
         for n in (6, 8, 10, 12):
@@ -692,6 +985,32 @@ def run(ctx):
         ctx.hist("gram_partitions_per_case", min(info["parts"], 64) if info["parts"] < 64 else "64+")
         ctx.hist("mode", "exact(Rat)+bit(Float)" if info["exact_case"] else "bit(Float) only")
         for o in ops[2:]: ctx.hist("op_mix", o.split()[0])
+    # boundary classes of the generated inputs (measured, for the evidence)
+    for ops, info in cases:
+        pl = next((o.split() for o in ops if o.startswith("pts ")), None)
+        if pl:
+            n_, d_ = int(pl[1]), int(pl[2]); rows = [tuple(pl[3 + i * d_: 3 + (i + 1) * d_]) for i in range(n_)]
+            if n_ == 1: ctx.hist("boundary_classes", "one point")
+            if len(set(rows)) < n_: ctx.hist("boundary_classes", "duplicate points")
+            if any(all(v == "0" for v in row) for row in rows): ctx.hist("boundary_classes", "zero vector among the points")
+            if d_ == 1: ctx.hist("boundary_classes", "dimension 1")
+        nrec = sum(1 for o in ops if o.split()[0] in ("setparams", "setfactor", "tsetparams", "tsetgamma") or o.startswith("mk setparams"))
+        if nrec >= 2: ctx.hist("boundary_classes", "history with >= 2 reconfigurations of one object")
+        if "adaptall" in ops: ctx.hist("boundary_classes", "adaptive sub-kernels")
+        for o in ops:
+            w = o.split()
+            if w[0] == "task" and len(set(w[3:])) < int(w[1]): ctx.hist("boundary_classes", "task without examples"); 
+            if w[0] == "task" and int(w[1]) == 1: ctx.hist("boundary_classes", "single task")
+            if w[0] in ("gram", "gderivx", "gderiv") and len(w) >= 3 and all(x == "1" for x in w[(2 if w[0] == "gram" else 1):]): ctx.hist("boundary_classes", "all batches of size 1")
+            if w[0] in ("gderivx", "gderiv") and len(w) == 2: ctx.hist("boundary_classes", "one batch")
+            if w[0] in ("pderiv", "ideriv") and int(w[2]) - int(w[1]) == 1 and int(w[4]) - int(w[3]) == 1: ctx.hist("boundary_classes", "1x1 derivative block")
+            if w[0] == "kexp" and w[3] == "1": ctx.hist("boundary_classes", "kernel expansion over one basis batch")
+            if w[0] == "kexp" and w[2] == "0": ctx.hist("boundary_classes", "kernel expansion without offset")
+            if w[0] == "skip" and w[3:] == ["0", "0", "0"]: ctx.hist("boundary_classes", "skip-missing with nothing missing")
+            if w[0] in ("mono",) : pass
+        if " mono 0" in ops[0] or " mono 1" in ops[0]: ctx.hist("boundary_classes", "monomial exponent 0 or 1")
+        if "poly 1 " in ops[0]: ctx.hist("boundary_classes", "polynomial degree 1")
+        if any(t in ops[0] for t in ("wsum 1 ", "wsump 1", "subk 1", "prod 1 ")): ctx.hist("boundary_classes", "sum / product of one kernel")
     ctx.cov["evaluations"] = len(cases)
     ctx.cov["distinct_nontrivial"] = len({"\n".join(o) for o, i in cases
                                           if i["depth"] >= 1 or any(x.startswith("gram") and len(x.split()) > 3 for x in o)})
@@ -710,10 +1029,18 @@ def run(ctx):
             core.oracle_only(ctx, "K-C05[dense,oracle-only histories]", oonly, [exe, "dense"], classify, env=env)
         else:
             ctx.log(f"K-C05[dense,oracle-only histories]: {len(oonly)} cases pass the in-harness oracle")
+    # second harness: kernels over structured inputs (dense only)
+    bcases = [(o, i) for o, i in cases if is_b_case(o)]
+    cases = [(o, i) for o, i in cases if not is_b_case(o)]
+    ctx.cov["cases_structured_inputs"] = len(bcases)
+    core.correspond(ctx, "K-C05b[float]", [o for o, _ in bcases], [exe_b], [drv, "float"], classify, keep_prefix=2, env=env)
+    exb = [o for o, i in bcases if i["exact_case"]]
+    ctx.cov["cases_structured_inputs_exact"] = len(exb)
+    core.correspond(ctx, "K-C05b[rat]", exb, [exe_b], [drv, "rat"], classify, keep_prefix=2, env=env)
     for inp in ("dense", "sparse"):
         sel = [(o, i) for o, i in cases if inp == "dense" or not (set(i["kinds"]) & SPARSE_UNSUPPORTED)]
-        if inp == "sparse":      # weightedInputDerivative needs a dense batch type
-            sel = [([x for x in o if not x.startswith(("ideriv", "ps ", "psets"))], i) for o, i in sel]
+        if inp == "sparse":      # weightedInputDerivative / evalSkipMissingFeatures need a dense input type
+            sel = [([x for x in o if not x.startswith(("ideriv", "ps ", "psets", "skip"))], i) for o, i in sel]
         ctx.cov[f"cases_{inp}"] = len(sel)
         core.correspond(ctx, f"K-C05[{inp},float]", [o for o, _ in sel], [exe, inp], [drv, "float"], classify, keep_prefix=2, env=env)
         ex = [o for o, i in sel if i["exact_case"]]
@@ -727,7 +1054,7 @@ def run(ctx):
 
 
 def replay(ctx, rep):
-    exe = build(ctx); drv = ctx.driver("drv_c05")
+    exe = build_b(ctx) if is_b_case(rep["ops"]) else build(ctx); drv = ctx.driver("drv_c05")
     hcmd = list(rep.get("harness_cmd", [exe, "dense"])); hcmd[0] = exe
     dcmd = list(rep.get("driver_cmd", [drv, "float"])); dcmd[0] = drv
     res = core.run_case(ctx, hcmd, dcmd, rep["ops"], env=rep.get("env") or None)
